@@ -498,3 +498,169 @@ class SortDescAsc(_Sort):
 @register
 class SortDescDesc(_Sort):
     variant, dirs = "two keys desc,desc", (-1, -1)
+
+
+class _Select(Contract):
+    """select(*keys): every result item is a new AttributeDict holding exactly the named keys the
+    source item has, with the same values; source items are not changed."""
+    file, qualname, prop = F, "ListOfDicts.select", "C15"
+    arity = 1
+
+    def setup(self, cx):
+        self_ = cx.lod("self")
+        names = ["k1", "k2", "k3"][:self.arity]
+        return {"self": self_, "args": list(names), "names": names}
+
+    def ensures(self, cx, result):
+        ctx = cx.ctx
+        s = cx.inputs["self"].base
+        D0, A0, D = cx.old["heap"]["D"], cx.old["heap"]["alloc"], ctx.heap["D"]
+        items = result_items(cx, result)
+        kvs = [M.to_v(cx.it, n) for n in cx.inputs["names"]]
+        j = ctx.fresh("j", INT)
+        x = ctx.fresh("x", V)
+        r = ctx.fresh("r", V)
+        named = z3.Or(*[x == k for k in kvs])
+        cx.prove("len", zint(items.len) == zint(s.len))
+        cx.prove("named-keys-kept", z3.Implies(z3.And(in_range(j, s.len), named), D[items.at(j)][x] == D0[s.at(j)][x]))
+        cx.prove("other-keys-absent", z3.Implies(z3.And(in_range(j, s.len), z3.Not(named)), D[items.at(j)][x] == ABSENT))
+        cx.prove("items-are-AttributeDicts", z3.Implies(in_range(j, s.len), M.is_adict(items.at(j))))
+        cx.prove("frame:existing-dicts-unchanged", z3.Implies(A0[r], D[r] == D0[r]))
+
+
+@register
+class Select1(_Select):
+    variant, arity = "one key", 1
+
+
+@register
+class Select2(_Select):
+    variant, arity = "two keys", 2
+
+
+def touched(s, k, r):
+    p = z3.Int("p!t")
+    return z3.Exists([p], z3.And(0 <= p, p < k, s.at(p) == r))
+
+
+def frame_inv(names):
+    """Only the named keys of the receiver's items change (loop invariant of the in-place editors)."""
+    def inv(S):
+        D, D0 = S.heap["D"], S.entry_heap["D"]
+        r, x = z3.Consts("r!inv x!inv", V)
+        kvs = [M.to_v(S.it, n) for n in names]
+        named = z3.Or(*[x == k for k in kvs])
+        return z3.ForAll([r, x], z3.And(z3.Implies(z3.Not(named), D[r][x] == D0[r][x]),
+                                        z3.Implies(z3.Not(touched(S.coll, S.k, r)), D[r][x] == D0[r][x])))
+    return inv
+
+
+class _InPlace(Contract):
+    file, prop = F, "C15"
+    names = ("k1",)
+
+    def common(self, cx, result):
+        ctx = cx.ctx
+        s = cx.inputs["self"].base
+        D0, D = cx.old["heap"]["D"], ctx.heap["D"]
+        items = result_items(cx, result)
+        j = ctx.fresh("j", INT)
+        x, r = ctx.fresh("x", V), ctx.fresh("r", V)
+        kvs = [M.to_v(cx.it, n) for n in self.names]
+        named = z3.Or(*[x == k for k in kvs])
+        cx.prove("same-item-objects-in-order", z3.And(zint(items.len) == zint(s.len),
+                                                      z3.Implies(in_range(j, s.len), items.at(j) == s.at(j))))
+        cx.prove("frame:other-keys-unchanged", z3.Implies(z3.Not(named), D[r][x] == D0[r][x]))
+        cx.prove("frame:other-dicts-unchanged", z3.Implies(z3.Not(touched(s, zint(s.len), r)), D[r] == D0[r]))
+        return s, D0, D, j, kvs
+
+
+def modify1_inv(S):
+    p = z3.Int("p!m")
+    k1 = M.to_v(S.it, "k1")
+    return {"frame": frame_inv(("k1",))(S),
+            "assigned": z3.ForAll([p], z3.Implies(z3.And(0 <= p, p < S.k), S.heap["D"][S.coll.at(p)][k1] != ABSENT))}
+
+
+@register
+class Modify1(_InPlace):
+    qualname, variant = "ListOfDicts.modify", "one key"
+    loops = {("ListOfDicts.modify", 0): LoopSpec(modify1_inv)}
+
+    def setup(self, cx):
+        f = cx.callback("f1")
+        return {"self": cx.lod("self"), "kwargs": {"k1": f}}
+
+    def ensures(self, cx, result):
+        s, D0, D, j, kvs = self.common(cx, result)
+        cx.prove("named-key-present", z3.Implies(in_range(j, s.len), D[s.at(j)][kvs[0]] != ABSENT))
+
+
+@register
+class Modify2(_InPlace):
+    qualname, variant, names = "ListOfDicts.modify", "two keys", ("k1", "k2")
+    loops = {("ListOfDicts.modify", 0): LoopSpec(frame_inv(("k1", "k2")))}
+
+    def setup(self, cx):
+        return {"self": cx.lod("self"), "kwargs": {"k1": cx.callback("f1"), "k2": cx.callback("f2")}}
+
+    def ensures(self, cx, result):
+        self.common(cx, result)
+
+
+@register
+class ModifyIf1(_InPlace):
+    qualname, variant = "ListOfDicts.modify_if", "one key"
+    loops = {("ListOfDicts.modify_if", 0): LoopSpec(frame_inv(("k1",)))}
+
+    def setup(self, cx):
+        return {"self": cx.lod("self"), "args": [cx.callback("pred")], "kwargs": {"k1": cx.callback("f1")}}
+
+    def ensures(self, cx, result):
+        self.common(cx, result)
+
+
+def unselect_inv(S):
+    D, D0 = S.heap["D"], S.entry_heap["D"]
+    r, x = z3.Consts("r!inv x!inv", V)
+    k1 = M.to_v(S.it, "k1")
+    return z3.ForAll([r, x], D[r][x] == z3.If(z3.And(x == k1, touched(S.coll, S.k, r)), ABSENT, D0[r][x]))
+
+
+@register
+class Unselect1(_InPlace):
+    qualname, variant = "ListOfDicts.unselect", "one key"
+    loops = {("ListOfDicts.unselect", 0): LoopSpec(unselect_inv)}
+
+    def setup(self, cx):
+        return {"self": cx.lod("self"), "args": ["k1"]}
+
+    def ensures(self, cx, result):
+        s, D0, D, j, kvs = self.common(cx, result)
+        cx.prove("named-key-removed", z3.Implies(in_range(j, s.len), D[s.at(j)][kvs[0]] == ABSENT))
+
+
+def fill_inv(S):
+    D, D0 = S.heap["D"], S.entry_heap["D"]
+    r, x = z3.Consts("r!inv x!inv", V)
+    k1 = M.to_v(S.it, "k1")
+    v = S.it.contract_inputs["v"]
+    return z3.ForAll([r, x], D[r][x] == z3.If(z3.And(x == k1, touched(S.coll, S.k, r), D0[r][k1] == ABSENT), v, D0[r][x]))
+
+
+@register
+class FillMissing1(_InPlace):
+    qualname, variant = "ListOfDicts.fill_missing_keys", "one key=value"
+    loops = {("ListOfDicts.fill_missing_keys", 0): LoopSpec(fill_inv)}
+
+    def setup(self, cx):
+        v = cx.val("v")
+        cx.assume(v != ABSENT)
+        cx.it.contract_inputs = {"v": v}
+        return {"self": cx.lod("self"), "kwargs": {"k1": v}, "v": v}
+
+    def ensures(self, cx, result):
+        s, D0, D, j, kvs = self.common(cx, result)
+        v = cx.inputs["v"]
+        cx.prove("missing-filled-present-kept", z3.Implies(in_range(j, s.len), D[s.at(j)][kvs[0]] == z3.If(
+            D0[s.at(j)][kvs[0]] == ABSENT, v, D0[s.at(j)][kvs[0]])))
